@@ -302,7 +302,7 @@ class HistoryGen:
         if kind == "sete":
             p = rng.choice(free)
             ast = self.eg.gen(spec.leaf_type[p], self.cfg["expr_depth"], True)
-            if rng.random() < 0.03 and spec.leaf_type[p] == "f":
+            if rng.random() < 0.03 and spec.leaf_type[p] == "f" and "div" not in self.eg.ops_off:
                 ast = ("bi", "divmod", ast, (rng.choice([2, 3, 0.5]),))
             return ("sete", p, ast, rng.choice(STYLES))
         if kind == "inpl":
